@@ -200,8 +200,8 @@ func TestC09_HandBuilt(t *testing.T) {
 		bud := model.NewBudget(gen.Quantum)
 		// indexes in the message must be indexes of the mapping
 		dom := newDomain(m)
-		base := rapid.IntRange(dom.minIdx+130, dom.maxIdx-130).Draw(t, "base")
-		if rapid.Bool().Draw(t, "basenear0") && dom.minIdx+130 <= -100 && dom.maxIdx-130 >= 100 {
+		base := rapid.IntRange(dom.minIdx+230, dom.maxIdx-230).Draw(t, "base")
+		if rapid.Bool().Draw(t, "basenear0") && dom.minIdx+230 <= -100 && dom.maxIdx-230 >= 100 {
 			base = rapid.IntRange(-100, 100).Draw(t, "base0")
 		}
 		cl.logf("C09/C %s base=%d", spec, base)
@@ -242,7 +242,12 @@ func TestC09_HandBuilt(t *testing.T) {
 			if rapid.Bool().Draw(t, tag+"contig") {
 				off := base + rapid.IntRange(-60, 60).Draw(t, tag+"off")
 				st.ContiguousBinIndexOffset = int32(off)
-				for i := 0; i < rapid.IntRange(0, 40).Draw(t, tag+"ncontig"); i++ {
+				nc := rapid.IntRange(0, 40).Draw(t, tag+"ncontig")
+				if rapid.IntRange(0, 3).Draw(t, tag+"longrun") == 0 {
+					nc = rapid.IntRange(63, 130).Draw(t, tag+"ncontiglong") // covers at least one whole 32-index page
+					cl.label("contiguous-run>=63")
+				}
+				for i := 0; i < nc; i++ {
 					c := w(t)
 					st.ContiguousBinCounts = append(st.ContiguousBinCounts, c)
 					exp.Add(off+i, c)
